@@ -127,7 +127,7 @@ func (c *glCtx) typeOf(e ast.Expr) string {
 		}
 		return c.types[e.Name]
 	case *ast.SelectorExpr:
-		t := strings.TrimPrefix(c.typeOf(e.X), "*")
+		t := staticType(c.typeOf(e.X))
 		if t == "" {
 			return ""
 		}
@@ -135,7 +135,7 @@ func (c *glCtx) typeOf(e ast.Expr) string {
 		return ft
 	case *ast.CallExpr:
 		if se, ok := e.Fun.(*ast.SelectorExpr); ok {
-			t := strings.TrimPrefix(c.typeOf(se.X), "*")
+			t := staticType(c.typeOf(se.X))
 			if t != "" {
 				if _, fd := c.p.findMethod(t, se.Sel.Name); fd != nil && fd.Type.Results != nil && len(fd.Type.Results.List) >= 1 {
 					return c.p.src(fd.Type.Results.List[0].Type)
@@ -151,8 +151,36 @@ func (c *glCtx) typeOf(e ast.Expr) string {
 	return ""
 }
 
-func (c *glCtx) isStructPtr(t string) bool {
+// ifaceImpl: interface types whose values are, statically, treated as the struct all implementations embed
+var ifaceImpl = map[string]string{"Batcher": "Batch"}
+
+func staticType(t string) string {
 	t = strings.TrimPrefix(t, "*")
+	if impl, ok := ifaceImpl[t]; ok {
+		return impl
+	}
+	return t
+}
+
+// dynTypes: the struct types embedding `base` that define method m themselves (dynamic dispatch targets)
+func (p *pkg) dynTypes(base, m string) []string {
+	var out []string
+	for _, t := range sortedKeys(p.types) {
+		if t == base {
+			continue
+		}
+		em := p.embedded(t, 0)
+		if len(em) > 1 && em[1] == base {
+			if _, ok := p.funcs[t+"."+m]; ok {
+				out = append(out, t)
+			}
+		}
+	}
+	return out
+}
+
+func (c *glCtx) isStructPtr(t string) bool {
+	t = staticType(t)
 	ts := c.p.types[t]
 	if ts == nil {
 		return false
@@ -357,7 +385,7 @@ func (c *glCtx) expr(e ast.Expr) string {
 				return fmt.Sprintf("(.fld %s)", leanStr(e.Sel.Name))
 			}
 		}
-		if xt := strings.TrimPrefix(c.typeOf(e.X), "*"); xt != "" && c.isStructPtr(xt) {
+		if xt := staticType(c.typeOf(e.X)); xt != "" && c.isStructPtr(xt) {
 			if _, ok := c.p.structFieldType(xt, e.Sel.Name); ok {
 				return fmt.Sprintf("(.sel %s %s)", c.expr(e.X), leanStr(e.Sel.Name))
 			}
@@ -383,9 +411,22 @@ func (c *glCtx) expr(e ast.Expr) string {
 					}
 				}
 			case "int", "int32", "int64", "uint", "rune", "string":
+				if f.Name == "string" {
+					break
+				}
+				fallthrough
+			case "__never__":
 				if len(e.Args) == 1 && f.Name != "string" {
 					return c.expr(e.Args[0])
 				}
+			}
+			if strings.HasPrefix(f.Name, "NewErr") { // error constructors: a non-nil error named by its first string argument, else by its type
+				if len(e.Args) >= 1 {
+					if s, ok := c.p.evalStr(e.Args[0]); ok {
+						return fmt.Sprintf("(.mkErr %s)", leanStr(s))
+					}
+				}
+				return fmt.Sprintf("(.mkErr %s)", leanStr(strings.TrimPrefix(f.Name, "New")))
 			}
 			if t, ok := c.helperCall(f.Name, e.Args); ok {
 				return t
@@ -468,7 +509,7 @@ func paramNames(fd *ast.FuncDecl) []string {
 // (single `return expr`) are inlined; helper methods of the embedded validator / converters go the helper way;
 // any other method whose body translates is hoisted as a call statement in front of the current statement.
 func (c *glCtx) methodCall(e *ast.CallExpr, f *ast.SelectorExpr) (string, bool) {
-	xt := strings.TrimPrefix(c.typeOf(f.X), "*")
+	xt := staticType(c.typeOf(f.X))
 	if xt == "" || !c.isStructPtr(xt) {
 		return "", false
 	}
@@ -588,9 +629,26 @@ func (c *glCtx) checkCall(call *ast.CallExpr, tag string) (string, bool) {
 	if !ok {
 		return "", false
 	}
-	xt := strings.TrimPrefix(c.typeOf(se.X), "*")
+	rawT := strings.TrimPrefix(c.typeOf(se.X), "*")
+	xt := staticType(rawT)
 	if xt == "" || !c.isStructPtr(xt) {
 		return "", false
+	}
+	// a method of an interface value that the implementations define themselves: dispatch on the dynamic type
+	if base, isIface := ifaceImpl[rawT]; isIface && len(call.Args) == 0 {
+		if dyn := c.p.dynTypes(base, se.Sel.Name); len(dyn) > 0 {
+			rt := c.recvTermOf(se.X)
+			if rt == "" {
+				return "", false
+			}
+			chain := "(.effect \"unknown dynamic type\")"
+			for i := len(dyn) - 1; i >= 0; i-- {
+				key := dyn[i] + "." + se.Sel.Name
+				c.q.translate(c.p, key)
+				chain = fmt.Sprintf("(.ite (.eq (.sel %s \"$type\") (.str %s))\n    (.checkOn %s %s [] [] %s)\n    %s)", rt, leanStr(dyn[i]), tag, rt, glName(key), chain)
+			}
+			return chain, true
+		}
 	}
 	key, fd := c.p.findMethod(xt, se.Sel.Name)
 	if fd == nil || fd.Body == nil || fd.Type.Results == nil || len(fd.Type.Results.List) != 1 || c.p.src(fd.Type.Results.List[0].Type) != "error" {
@@ -600,8 +658,30 @@ func (c *glCtx) checkCall(call *ast.CallExpr, tag string) (string, bool) {
 	if declT == "validator" || declT == "converters" || c.q.busy[key] {
 		return "", false
 	}
-	params := paramNames(fd)
-	if len(params) != len(call.Args) {
+	// parameters of type *ValidateOpts are not passed as values: the callee reads them as the "param" flag set, which
+	// is the caller's when the caller hands its own parameter on
+	var params []string
+	var args []ast.Expr
+	ai := 0
+	if fd.Type.Params != nil {
+		for _, f := range fd.Type.Params.List {
+			for _, n := range f.Names {
+				if ai >= len(call.Args) {
+					return "", false
+				}
+				if c.p.src(f.Type) == "*ValidateOpts" {
+					if id, ok := call.Args[ai].(*ast.Ident); !ok || !c.optsPar[id.Name] {
+						return "", false
+					}
+				} else {
+					params = append(params, n.Name)
+					args = append(args, call.Args[ai])
+				}
+				ai++
+			}
+		}
+	}
+	if ai != len(call.Args) {
 		return "", false
 	}
 	mark := len(unrecognised)
@@ -620,7 +700,7 @@ func (c *glCtx) checkCall(call *ast.CallExpr, tag string) (string, bool) {
 		rt = ".self"
 	}
 	var as []string
-	for _, a := range call.Args {
+	for _, a := range args {
 		as = append(as, c.expr(a))
 	}
 	return fmt.Sprintf("(.checkOn %s %s %s [%s] %s)", tag, rt, leanStrList(params), strings.Join(as, ", "), glName(key)), true
@@ -857,6 +937,9 @@ func (c *glCtx) stmt0(s ast.Stmt) string {
 				val = id.Name
 			}
 			if strings.HasPrefix(c.typeOf(s.X), "[]") && c.isStructPtr(et) {
+				if _, isIface := ifaceImpl[et]; !isIface && !strings.HasPrefix(et, "*") {
+					et = "*" + et // ranging over a slice of struct values: the loop variable is used like a pointer to the element
+				}
 				savedSw := c.inSwitch
 				c.inSwitch = 0
 				defer func() { c.inSwitch = savedSw }()
@@ -915,6 +998,13 @@ func (c *glCtx) stmt0(s ast.Stmt) string {
 				if c.inSwitch == 0 {
 					return ".brk"
 				}
+			}
+		}
+	case *ast.ExprStmt:
+		// X.SetY(...): a statement that modifies a record; the model stops there (such runs are outside its domain)
+		if ce, ok := s.X.(*ast.CallExpr); ok {
+			if se, ok := ce.Fun.(*ast.SelectorExpr); ok && strings.HasPrefix(se.Sel.Name, "Set") && c.isStructPtr(c.typeOf(se.X)) {
+				return fmt.Sprintf("(.effect %s)", leanStr(c.p.src(s)))
 			}
 		}
 	case *ast.IncDecStmt:
@@ -1258,6 +1348,10 @@ func emitValidators(p *pkg, out string) {
 	for _, k := range batchEntries {
 		q.translate(p, k)
 	}
+	fileEntries := []string{"File.ValidateWith"}
+	for _, k := range fileEntries {
+		q.translate(p, k)
+	}
 	for _, k := range q.order {
 		lf.pf("def %s : Prog :=\n  %s\n\n", glName(k), q.done[k])
 	}
@@ -1271,6 +1365,7 @@ func emitValidators(p *pkg, out string) {
 	}
 	lf.pf("]\n\n/-- the record-level entry points -/\ndef validatorEntries : List String := %s\n\n", leanStrList(entries))
 	lf.pf("/-- the batch-level entry points (one per SEC code) -/\ndef batchValidatorEntries : List String := %s\n\n", leanStrList(batchEntries))
+	lf.pf("/-- the file-level entry point -/\ndef fileValidatorEntries : List String := %s\n\n", leanStrList(fileEntries))
 	// field types of the receiver structs (string / int / bool / other)
 	lf.pf("def validatorFieldTypes : List (String × List (String × String)) := [\n")
 	seen := map[string]bool{}
